@@ -55,11 +55,21 @@ def inv2 (Y : Doc) : UOp → UOp
 /-- what `ReconcileCreatedAt` does to a stacked operation, iterated: anchors, targets (and the identity
     of a value that waits for its re-insertion) are renamed -/
 def fullRen (ρ : Ticket → Ticket) : UOp → UOp
-  | .add p prev v ts => .add p (ρ prev) { v with id := ρ v.id } ts
-  | .remove p u ts => .remove p (ρ u) ts
-  | .move p prev target ts => .move p (ρ prev) (ρ target) ts
-  | .arraySet p target v ts => .arraySet p (ρ target) v ts
-  | op => op
+  | .add p prev v ts => .add (ρ p) (ρ prev) { v with id := ρ v.id } ts
+  | .remove p u ts => .remove (ρ p) (ρ u) ts
+  | .move p prev target ts => .move (ρ p) (ρ prev) (ρ target) ts
+  | .arraySet p target v ts => .arraySet (ρ p) (ρ target) v ts
+  | .set p k v ts => .set (ρ p) k v ts
+  | .increase p dl ts => .increase (ρ p) dl ts
+
+/-- the container (counter) an operation acts on: what the repaired `ReconcileCreatedAt` rewrites too -/
+def UOp.par : UOp → Ticket
+  | .add p _ _ _ => p
+  | .remove p _ _ => p
+  | .move p _ _ _ => p
+  | .arraySet p _ _ _ => p
+  | .set p _ _ _ => p
+  | .increase p _ _ => p
 
 /-- the identities an operation refers to are not later than `N` -/
 def idBound2 : UOp → Int → Prop
@@ -84,7 +94,7 @@ def addId? : UOp → Option Ticket
 /-- one `ReconcileCreatedAt` step `ρ u ↦ b` on a renamed recorded operation is the renaming updated at
     `u`, unless the operation is itself an `Add` of `u` -/
 theorem reconcileOp_fullRen {ρ : Ticket → Ticket} {N : Int} (inj : InjOn ρ N) {u b : Ticket}
-    (hu : u.lamport ≤ N) {r : UOp} (hi : idBound2 r N) (hne : addId? r ≠ some u) :
+    (hu : u.lamport ≤ N) {r : UOp} (hi : idBound2 r N) (hpb : r.par.lamport ≤ N) (hne : addId? r ≠ some u) :
     reconcileOp (ρ u) b (fullRen ρ r) = fullRen (fun t => if t = u then b else ρ t) r := by
   have key : ∀ x : Ticket, x.lamport ≤ N → Undo.rw (ρ u) b (ρ x) = if x = u then b else ρ x := by
     intro x hx
@@ -96,12 +106,12 @@ theorem reconcileOp_fullRen {ρ : Ticket → Ticket} {N : Int} (inj : InjOn ρ N
   cases r with
   | add p prev v ts =>
     have hv : v.id ≠ u := fun h => hne (by simp [addId?, h])
-    simp only [fullRen, reconcileOp, key prev hi.1, hv, if_false]
-  | remove p t ts => simp only [fullRen, reconcileOp, key t hi]
-  | move p prev target ts => simp only [fullRen, reconcileOp, key prev hi.1, key target hi.2]
-  | arraySet p target v ts => simp only [fullRen, reconcileOp, key target hi]
-  | set => rfl
-  | increase => rfl
+    simp only [fullRen, reconcileOp_add, key prev hi.1, key p hpb, hv, if_false]
+  | remove p t ts => simp only [fullRen, reconcileOp_remove, key t hi, key p hpb]
+  | move p prev target ts => simp only [fullRen, reconcileOp_move, key prev hi.1, key target hi.2, key p hpb]
+  | arraySet p target v ts => simp only [fullRen, reconcileOp_arraySet, key target hi, key p hpb]
+  | set p k v ts => simp only [fullRen, reconcileOp_set, key p hpb]
+  | increase p dl ts => simp only [fullRen, reconcileOp_increase, key p hpb]
 
 theorem fullRen_id (op : UOp) : fullRen id op = op := by
   cases op <;> rfl
@@ -185,59 +195,69 @@ def Hist.flip (h : Hist) : Hist := { h with undo := h.redo, redo := h.undo }
 
 theorem Hist.flip_flip (h : Hist) : h.flip.flip = h := by cases h; rfl
 
-theorem reticket_flip : ∀ (ops : List UOp) (h : Hist) (i : Nat),
-    reticket h.flip i ops = ((reticket h i ops).1.flip, (reticket h i ops).2)
-  | [], _, _ => rfl
-  | op :: rest, h, i => by
-    cases op with
+theorem reticketGo_flip (fx : Bool) : ∀ (ops : List UOp) (h : Hist) (i : Nat) (ren : List (Ticket × Ticket)),
+    reticketGo fx h.flip i ren ops = ((reticketGo fx h i ren ops).1.flip, (reticketGo fx h i ren ops).2)
+  | [], _, _, _ => rfl
+  | op0 :: rest, h, i, ren => by
+    cases hop : applyRen fx ren op0 with
     | add p prev v ts =>
-      have ih := reticket_flip rest (h.reconcile v.id ⟨h.lamport + 1, i, h.actor⟩) (i + 1)
-      simp only [reticket]
-      rw [show h.flip.reconcile v.id ⟨h.flip.lamport + 1, i, h.flip.actor⟩ =
-        (h.reconcile v.id ⟨h.lamport + 1, i, h.actor⟩).flip from rfl, ih]
-      rfl
+      have ih := reticketGo_flip fx rest (h.reconcileW fx v.id ⟨h.lamport + 1, i, h.actor⟩) (i + 1)
+        (ren ++ [(v.id, ⟨h.lamport + 1, i, h.actor⟩)])
+      simp only [reticketGo, hop]
+      rw [show h.flip.reconcileW fx v.id ⟨h.flip.lamport + 1, i, h.flip.actor⟩ =
+        (h.reconcileW fx v.id ⟨h.lamport + 1, i, h.actor⟩).flip from rfl,
+        show h.flip.lamport = h.lamport from rfl, show h.flip.actor = h.actor from rfl, ih]
     | arraySet p target v ts =>
-      have ih := reticket_flip rest (h.reconcile target ⟨h.lamport + 1, i, h.actor⟩) (i + 1)
-      simp only [reticket]
-      rw [show h.flip.reconcile target ⟨h.flip.lamport + 1, i, h.flip.actor⟩ =
-        (h.reconcile target ⟨h.lamport + 1, i, h.actor⟩).flip from rfl, ih]
-      rfl
+      have ih := reticketGo_flip fx rest
+        (if fx then (h.reconcileW fx target ⟨h.lamport + 1, i, h.actor⟩).reconcileW fx v.id ⟨h.lamport + 1, i, h.actor⟩
+          else h.reconcileW fx target ⟨h.lamport + 1, i, h.actor⟩) (i + 1)
+        (ren ++ [(target, ⟨h.lamport + 1, i, h.actor⟩), (v.id, ⟨h.lamport + 1, i, h.actor⟩)])
+      simp only [reticketGo, hop]
+      rw [show (if fx then (h.flip.reconcileW fx target ⟨h.flip.lamport + 1, i, h.flip.actor⟩).reconcileW fx v.id
+            ⟨h.flip.lamport + 1, i, h.flip.actor⟩
+          else h.flip.reconcileW fx target ⟨h.flip.lamport + 1, i, h.flip.actor⟩) =
+        (if fx then (h.reconcileW fx target ⟨h.lamport + 1, i, h.actor⟩).reconcileW fx v.id ⟨h.lamport + 1, i, h.actor⟩
+          else h.reconcileW fx target ⟨h.lamport + 1, i, h.actor⟩).flip from by cases fx <;> rfl,
+        show h.flip.lamport = h.lamport from rfl, show h.flip.actor = h.actor from rfl, ih]
     | set p k v ts =>
-      have ih := reticket_flip rest h (i + 1)
-      simp only [reticket]
+      have ih := reticketGo_flip fx rest h (i + 1) ren
+      simp only [reticketGo, hop]
       rw [ih]; rfl
     | move p prev target ts =>
-      have ih := reticket_flip rest h (i + 1)
-      simp only [reticket]
+      have ih := reticketGo_flip fx rest h (i + 1) ren
+      simp only [reticketGo, hop]
       rw [ih]; rfl
     | remove p target ts =>
-      have ih := reticket_flip rest h (i + 1)
-      simp only [reticket]
+      have ih := reticketGo_flip fx rest h (i + 1) ren
+      simp only [reticketGo, hop]
       rw [ih]; rfl
     | increase p dl ts =>
-      have ih := reticket_flip rest h (i + 1)
-      simp only [reticket]
+      have ih := reticketGo_flip fx rest h (i + 1) ren
+      simp only [reticketGo, hop]
       rw [ih]; rfl
+
+theorem reticket_flip (ops : List UOp) (h : Hist) (i : Nat) :
+    reticket h.flip i ops = ((reticket h i ops).1.flip, (reticket h i ops).2) :=
+  reticketGo_flip _ ops h i []
 
 theorem undoRedo_flip (h : Hist) :
     undoRedo h false = ((undoRedo h.flip true).1.flip, (undoRedo h.flip true).2) := by
   cases hr : h.redo with
   | nil =>
-    have h1 : undoRedo h false = (h, .nothing) := by simp [undoRedo, hr]
+    have h1 : undoRedo h false = (h, .nothing) := by simp [undoRedo_eq, hr]
     have h2 : undoRedo h.flip true = (h.flip, .nothing) := by
       have : h.flip.undo = [] := hr
-      simp [undoRedo, this]
+      simp [undoRedo_eq, this]
     rw [h1, h2, Hist.flip_flip]
   | cons entry rest =>
     have hu : h.flip.undo = entry :: rest := hr
     by_cases he : entry.isEmpty = true
-    · have h1 : undoRedo h false = ({ h with redo := rest }, .nothing) := by simp [undoRedo, hr, he]
-      have h2 : undoRedo h.flip true = ({ h.flip with undo := rest }, .nothing) := by simp [undoRedo, hu, he]
+    · have h1 : undoRedo h false = ({ h with redo := rest }, .nothing) := by simp [undoRedo_eq, hr, he]
+      have h2 : undoRedo h.flip true = ({ h.flip with undo := rest }, .nothing) := by simp [undoRedo_eq, hu, he]
       rw [h1, h2]; cases h; rfl
     · have hf : ({ h.flip with undo := rest } : Hist) = ({ h with redo := rest } : Hist).flip := by cases h; rfl
       have hrf := reticket_flip entry { h with redo := rest } 1
-      unfold undoRedo
-      simp only [Bool.false_eq_true, if_false, if_true, hr, hu, he]
+      simp only [undoRedo_eq, Bool.false_eq_true, if_false, if_true, hr, hu, he]
       rw [hf, hrf]
       cases hrt : reticket { h with redo := rest } 1 entry with
       | mk h1 ops =>
